@@ -1,5 +1,5 @@
-\* spec mutation (W_Avail = TRUE  W_Overhead = TRUE  W_Ports = TRUE  W_KeepTerm = TRUE  W_Override = TRUE  W_Refilter = FALSE): TLC must violate Inv_C01_EveryLaunchOptionHostsItsPods
+\* spec mutation (W_Avail = TRUE  W_Overhead = TRUE  W_Ports = TRUE  W_KeepTerm = TRUE  W_Override = TRUE  W_Refilter = FALSE  W_InitTaints = TRUE): TLC must violate Inv_C01_EveryLaunchOptionHostsItsPods
 CONSTANTS NPods = 2  PodArchs = {1,2}  Catalogs = {1}  PoolSets = {1}  Existings = {0}  Daemons = {0}
-CONSTANTS W_Avail = TRUE  W_Overhead = TRUE  W_Ports = TRUE  W_KeepTerm = TRUE  W_Override = TRUE  W_Refilter = FALSE
+CONSTANTS W_Avail = TRUE  W_Overhead = TRUE  W_Ports = TRUE  W_KeepTerm = TRUE  W_Override = TRUE  W_Refilter = FALSE  W_InitTaints = TRUE
 SPECIFICATION Spec
 INVARIANTS Inv_C01_NoOvercommit Inv_C01_EveryLaunchOptionHostsItsPods Inv_C01_RequiredTermNeverDropped
